@@ -1,6 +1,7 @@
 import Hgxv.Model.Wire
 import Hgxv.Model.C16
-/-! Line protocol for C16 (stateless; every line carries its whole input).
+/-! Line protocol for C16 (every line carries its whole input; the only state is the sampler-state record
+`C16.Sampler` used by `new` / `call...`: the other commands leave it alone).
 
   `reshuffle h1 h2 pick`                                   -> `new1;new2` (each sorted) | `none`
   `chain cfg fixed burn thins`                             -> yields `cfg|cfg|...` | `none`
@@ -13,7 +14,13 @@ import Hgxv.Model.C16
   `trunc quantiles`                                        -> weights (`np.maximum(quantile, 1)`)
   `fromhyg labels edges burn thins quantiles`              -> `out|out|...` | `none`
   `fromseqs degSeq dimSeq fd fm fixed picks burn thins quantiles` -> `flag out|out|...` | `none`
-        `quantiles`: per sample the Poisson quantiles of `sample_truncated_poisson` (the weights are clamped to >= 1) -/
+        `quantiles`: per sample the Poisson quantiles of `sample_truncated_poisson` (the weights are clamped to >= 1)
+  `new`                                                    -> `ok`; the state becomes a sampler that has just been built
+  `callhyg labels edges burn thins quantiles`              -> `report state out|out|...` | `none state`
+  `callseqs degSeq dimSeq picks burn thins quantiles`      -> likewise     (`sample(deg_seq, dim_seq)`)
+  `callmodel degSeq dimSeq dyads picks burn thins quantiles` -> likewise   (`sample()`; sequences / dyads of the inner model)
+        one `sample(...)` call on the sampler in the current state (`callStep true`); `report` = the report
+        `matching_sequences` made by this call (`-` none, `0`, `1`), `state` = the attribute after the call -/
 open Wire C16
 
 def stepOf? : List Nat → Option StepDraw
@@ -34,7 +41,34 @@ def showOuts (l : List (List (Hye × Nat))) : String := showList "|" "-" showOut
 def flag? (s : String) : Option Bool := match s with | "1" => some true | "0" => some false | _ => none
 def labels? (s : String) : Option (Option (List Nat)) := if s = "-" then some none else (nats? s).map some
 
-def step (_ : Unit) : List String → Unit × String
+def showFlag : Option Bool → String
+  | none => "-"
+  | some b => showBool b
+
+def doCall (s : Sampler) (c : Call) : Sampler × String :=
+  match callStep true s c with
+  | (s', some r) => (s', s!"{showFlag r.report} {showFlag s'.flag} {showOuts r.outs}")
+  | (s', none) => (s', s!"none {showFlag s'.flag}")
+
+def callOf? : List String → Option Call
+  | ["callhyg", l, e, b, t, w] =>
+    match nats? l, natss? e, steps? b, blocks? t, natss? w with
+    | some labels, some edges, some burn, some thins, some ws =>
+      some ⟨.hyg labels edges, ⟨[], burn, thins, ws⟩, ⟨[], [], []⟩⟩
+    | _, _, _, _, _ => none
+  | ["callseqs", d, m, p, b, t, w] =>
+    match nats? d, pairs? m, natss? p, steps? b, blocks? t, natss? w with
+    | some degSeq, some dimSeq, some picks, some burn, some thins, some ws =>
+      some ⟨.seqs degSeq dimSeq, ⟨picks, burn, thins, ws⟩, ⟨[], [], []⟩⟩
+    | _, _, _, _, _, _ => none
+  | ["callmodel", d, m, f, p, b, t, w] =>
+    match nats? d, pairs? m, natss? f, natss? p, steps? b, blocks? t, natss? w with
+    | some degSeq, some dimSeq, some dyads, some picks, some burn, some thins, some ws =>
+      some ⟨.model, ⟨picks, burn, thins, ws⟩, ⟨degSeq, dimSeq, dyads⟩⟩
+    | _, _, _, _, _, _, _ => none
+  | _ => none
+
+def stateless (_ : Unit) : List String → Unit × String
   | ["reshuffle", a, b, p] =>
     match nats? a, nats? b, nats? p with
     | some h1, some h2, some pick =>
@@ -94,4 +128,15 @@ def step (_ : Unit) : List String → Unit × String
     | _, _, _, _, _, _, _, _, _ => ((), "bad-op")
   | _ => ((), "bad-op")
 
-def main : IO Unit := Wire.run step ()
+def step (s : Sampler) (toks : List String) : Sampler × String :=
+  match toks with
+  | ["new"] => (⟨none⟩, "ok")
+  | cmd :: _ =>
+    if cmd = "callhyg" || cmd = "callseqs" || cmd = "callmodel" then
+      match callOf? toks with
+      | some c => doCall s c
+      | none => (s, "bad-op")
+    else (s, (stateless () toks).2)
+  | [] => (s, "bad-op")
+
+def main : IO Unit := Wire.run step (⟨none⟩ : Sampler)
